@@ -47,7 +47,8 @@ struct JobOut {
 const HOST: &str = "vhost";
 
 fn contents() -> Vec<Vec<u8>> {
-    let mut c: Vec<Vec<u8>> = vec![b"".to_vec(), b"x".to_vec(), b"hello world\n".to_vec()];
+    // one empty, and two of EQUAL length (a same-size edit must still be seen as a change)
+    let mut c: Vec<Vec<u8>> = vec![b"".to_vec(), b"hello world\n".to_vec(), b"HELLO WORLD\n".to_vec()];
     c.sort_by_key(|x| *blake3::hash(x).as_bytes());
     c
 }
@@ -409,7 +410,12 @@ fn worker_job(w: &Worker, job: &Job) -> JobOut {
     let mut out = JobOut::default();
     let mode = job.mode.as_str();
     // ── main run (with the preceding dry run when C15) ──
-    w.materialise(st, false, None, None);
+    if mode == "C06" {
+        // old, distinct mtimes: whatever the run does not rewrite keeps them (see the chained differential)
+        w.materialise(st, false, Some(1_500_000_000), Some(1_500_000_007));
+    } else {
+        w.materialise(st, false, None, None);
+    }
     let mut dry: Option<Vec<(String, String)>> = None;
     if mode == "C15" {
         let before = (w.snapshot(&w.a), w.snapshot(&w.b), w.home_listing());
@@ -491,6 +497,80 @@ fn worker_job(w: &Worker, job: &Job) -> JobOut {
             } else if sa2 != snap_a || sb2 != snap_b || arch2 != out.post_r {
                 out.violations.push(("not_idempotent".into(), "immediate second run changed a file, an mtime or the recorded entries".into(), json!({})));
             }
+            // (c') chained differential: from the REAL on-disk post-state (real archive, real mtimes)
+            // apply every single edit in place WITHOUT disturbing the file's mtime, run again, and
+            // compare with the same edit applied to the re-materialised canonical state.
+            if out.violations.is_empty() {
+                let keep = w.root.join("keep");
+                let _ = std::fs::remove_dir_all(&keep);
+                for n in ["A", "B", "home"] {
+                    crate::e3::copy_dir(&w.root.join(n), &keep.join(n));
+                }
+                let mut paths: BTreeSet<String> = pa.keys().chain(pb.keys()).cloned().collect();
+                paths.insert("f".into());
+                'chain: for p in paths.iter().filter(|p| editable(p)) {
+                    for side in ["A", "B"] {
+                        let cur = if side == "A" { pa.get(p).copied() } else { pb.get(p).copied() };
+                        for newc in [None, Some(1u8), Some(2), Some(3)] {
+                            if newc == cur {
+                                continue;
+                            }
+                            // in place, mtime-preserving
+                            for n in ["A", "B", "home"] {
+                                let _ = std::fs::remove_dir_all(w.root.join(n));
+                                crate::e3::copy_dir(&keep.join(n), &w.root.join(n));
+                            }
+                            let root = if side == "A" { &w.a } else { &w.b };
+                            let full = root.join(p);
+                            use std::os::unix::fs::MetadataExt;
+                            let old = std::fs::metadata(&full).ok().map(|m| (m.mtime(), m.mtime_nsec()));
+                            match newc {
+                                None => {
+                                    let _ = std::fs::remove_file(&full);
+                                }
+                                Some(c) => {
+                                    if let Some(d) = full.parent() {
+                                        let _ = std::fs::create_dir_all(d);
+                                    }
+                                    let _ = std::fs::write(&full, &contents()[(c - 1) as usize]);
+                                    let (s0, n0) = old.unwrap_or((1_500_000_099, 0));
+                                    crate::c19::set_mtime(&full, s0, n0);
+                                }
+                            }
+                            let (r_in, _) = w.run(&w.a, &w.b, false);
+                            out.runs_executed += 1;
+                            let (ia, ib) = (Worker::tree_of(&w.snapshot(&w.a)), Worker::tree_of(&w.snapshot(&w.b)));
+                            let ir = w.read_archive(&w.a, &w.b).ok().flatten().map(|x| x.0);
+                            // canonical re-materialisation of the same edited state
+                            let mut ns = State { a: pa.clone(), b: pb.clone(), r: out.post_r.clone(), s: Tree::new(), runs: 0, ops: 0 };
+                            {
+                                let t = if side == "A" { &mut ns.a } else { &mut ns.b };
+                                match newc {
+                                    None => {
+                                        t.remove(p);
+                                    }
+                                    Some(c) => {
+                                        t.insert(p.clone(), c);
+                                    }
+                                }
+                            }
+                            w.materialise(&ns, false, None, None);
+                            let (r_re, _) = w.run(&w.a, &w.b, false);
+                            out.runs_executed += 1;
+                            let (ra, rb) = (Worker::tree_of(&w.snapshot(&w.a)), Worker::tree_of(&w.snapshot(&w.b)));
+                            let rr = w.read_archive(&w.a, &w.b).ok().flatten().map(|x| x.0);
+                            if r_in != r_re || ia != ra || ib != rb || ir != rr {
+                                out.violations.push((
+                                    "history_dependent".into(),
+                                    format!("after this run, edit {side}/{p} := {newc:?} made in place with the file's mtime preserved, then bisync: result {r_in}, A={ia:?} B={ib:?} R={ir:?}; the same trees and recorded state re-created from scratch give: {r_re}, A={ra:?} B={rb:?} R={rr:?} — the outcome depends on something other than contents and recorded common state"),
+                                    json!({"edit": format!("{side}/{p}:={newc:?}")}),
+                                ));
+                                break 'chain;
+                            }
+                        }
+                    }
+                }
+            }
             // (d) swapped argument order / adversarial mtimes
             for (name, swap, ma, mb) in [("swapped+A-newer", true, Some(2_000_000_000i64), Some(1i64)), ("B-newer", false, Some(0), Some(2_000_000_000)), ("swapped+equal-epoch0", true, Some(0), Some(0))] {
                 w.materialise(st, swap, ma, mb);
@@ -505,9 +585,53 @@ fn worker_job(w: &Worker, job: &Job) -> JobOut {
             }
         }
         "C07" => {
-            let menu = fault_menu(w, st, job.full_trunc);
+            let mut menu = fault_menu(w, st, job.full_trunc);
+            menu.push(("symlink-retarget".into(), None, false));
             for (name, bytes, leave_bak) in menu {
                 w.materialise(st, false, None, None);
+                if name == "symlink-retarget" {
+                    // the roots are named through a symlink that pointed at ANOTHER directory pair when the
+                    // (adversarial) archive was recorded, and is re-pointed at this pair before the run
+                    let realx = w.root.join("realX");
+                    let link = w.root.join("link");
+                    let _ = std::fs::remove_dir_all(&realx);
+                    let _ = std::fs::remove_file(&link);
+                    let _ = std::fs::create_dir_all(realx.join("A"));
+                    let _ = std::fs::create_dir_all(realx.join("B"));
+                    let _ = std::os::unix::fs::symlink(&realx, &link);
+                    let (la, lb) = (link.join("A"), link.join("B"));
+                    let mut adv = st.a.clone();
+                    for (p, c) in &st.b {
+                        adv.entry(p.clone()).or_insert(*c);
+                    }
+                    let ap = w.archive_file(&la, &lb);
+                    let _ = std::fs::create_dir_all(ap.parent().unwrap_or(&w.home));
+                    let _ = std::fs::write(&ap, w.archive_json(&la, &lb, &adv, None, 1));
+                    let _ = std::fs::remove_file(w.archive_file(&w.a, &w.b));
+                    let _ = std::fs::remove_file(&link);
+                    let _ = std::os::unix::fs::symlink(&w.root, &link);
+                    let (dres, dout) = w.run(&la, &lb, true);
+                    let (fres, fcap) = w.run(&la, &lb, false);
+                    out.runs_executed += 2;
+                    out.fault_runs += 1;
+                    let (fa, fb) = (Worker::tree_of(&w.snapshot(&w.a)), Worker::tree_of(&w.snapshot(&w.b)));
+                    let _ = std::fs::remove_file(&link);
+                    let mut bad: Option<String> = None;
+                    if dres != "ok" || !(fres == "ok" || fres == "conflicts") {
+                        bad = Some(format!("run failed: dry={dres} real={fres}"));
+                    } else if dout.contains("Delete") {
+                        bad = Some("the dry run lists a Delete action".into());
+                    } else if !fcap.contains("SAFE no-base mode") {
+                        bad = Some("no `SAFE no-base mode` banner".into());
+                    } else if st.a.iter().any(|(p, &c)| !survives(&fa, p, c) || !survives(&fb, p, c)) || st.b.iter().any(|(p, &c)| !survives(&fa, p, c) || !survives(&fb, p, c)) {
+                        bad = Some("a pre-run version is not present on both sides afterwards".into());
+                    }
+                    if let Some(m) = bad {
+                        let collide = st.a.iter().chain(st.b.iter()).any(|(p, &c)| collision(st, false, p, c));
+                        out.violations.push(("fault_causes_loss".into(), format!("archive fault {name}: {m}"), json!({"fault": name, "cause": if collide { "conflict_name_collision" } else { "other" }})));
+                    }
+                    continue;
+                }
                 let ap = w.archive_file(&w.a, &w.b);
                 let valid = st.r.as_ref().map(|r| w.archive_json(&w.a, &w.b, r, None, 1));
                 let _ = std::fs::create_dir_all(ap.parent().unwrap_or(&w.home));
